@@ -21,6 +21,7 @@ REGISTRY = {
     'C18': 'harness.session',
     'C19': 'harness.c19',
     'C20': 'harness.c20',
+    'X01': 'harness.x01',      # extension checks (not listed properties; not in MANIFEST)
 }
 
 if __name__ == '__main__':
